@@ -18,8 +18,12 @@ def run(ctx):
         if not ctx.quick:
             ctx.mc("MCEchPipe", "MCEchPipe_rl.cfg", timeout=3000)     # liveness: a persistent reader gets everything
             ctx.mc("MCEchPipe", "MCEchPipe_rt.cfg", timeout=3000)
-    n = 1200 if ctx.quick else 40000
-    f_out = ctx.path("pipe.ndjson")
+    pipe_traces(ctx, 1200 if ctx.quick else 40000)
+
+
+def pipe_traces(ctx, n, label="pp"):
+    """n seeded random record streams at real sizes through the real Conn; every recorded call trace validated by TLC."""
+    f_out = ctx.path(label + "-pipe.ndjson")
     env = {"VH_OUT": f_out, "VH_N": n}
     if ctx.replay:
         rp = json.load(open(ctx.replay))["replay"]
@@ -35,4 +39,4 @@ def run(ctx):
         ctx.sample(tr[:12])
     for tr in traces:
         tr[0]["seed"] = ctx.seed
-    vlib.check_traces_chunks(ctx, traces, 400 if ctx.quick else 4000, "pp", module="TraceEchPipe", cfg="TraceEchPipe.cfg", specname="EchPipe.tla")
+    vlib.check_traces_chunks(ctx, traces, 400 if ctx.quick else 4000, label, module="TraceEchPipe", cfg="TraceEchPipe.cfg", specname="EchPipe.tla")
